@@ -1,10 +1,11 @@
 #!/bin/bash
-# tools/ingest_seed3.sh <PID> : copy the two changes of round 3 from /tmp/seed3_<PID>/out/{A,B} to seeded/<PID>_{e,f},
+# tools/ingest_seed3.sh <PID> : copy the two changes of round 3 from /tmp/seed${R:-3}_<PID>/out/{A,B} to seeded/<PID>_{e,f},
 # confirm each in a scratch worktree (suite passes, demo fails with / passes without), then remove the seeder's worktree.
 P="$1"; cd "$(dirname "$0")/.." || exit 2
-for pair in A:e B:f; do
+PAIRS="A:e B:f"; [ "${R:-3}" = "4" ] && PAIRS="A:g B:h"
+for pair in $PAIRS; do
   X=${pair%%:*}; s=${pair##*:}
-  src=/tmp/seed3_$P/out/$X
+  src=/tmp/seed${R:-3}_$P/out/$X
   [ -f "$src/patch.diff" ] || { echo "$P $X: no patch"; continue; }
   dst=seeded/${P}_$s
   mkdir -p "$dst"; cp "$src/patch.diff" "$src/demo.py" "$src/meta.json" "$dst/" 2>/dev/null
@@ -13,7 +14,8 @@ import json,sys
 d,p=sys.argv[1:3]
 try: m=json.load(open(d+"/meta.json"))
 except Exception as e: m={"summary":"(meta.json unreadable: %s)"%e}
-m["property"]=p; m["round"]=3
+import os
+m["property"]=p; m["round"]=int(os.environ.get("R","3"))
 json.dump(m,open(d+"/meta.json","w"),indent=1)
 PY
   r=$(tools/verify_seeded.sh "$PWD/$dst")
@@ -24,4 +26,4 @@ d,r=sys.argv[1:3]
 m=json.load(open(d+"/meta.json")); m["confirmed"]=r; json.dump(m,open(d+"/meta.json","w"),indent=1)
 PY
 done
-git -C /repo worktree remove --force /tmp/seed3_$P 2>/dev/null; rm -rf /tmp/seed3_$P
+git -C /repo worktree remove --force /tmp/seed${R:-3}_$P 2>/dev/null; rm -rf /tmp/seed${R:-3}_$P
